@@ -75,6 +75,10 @@ class Emitter:
             elif st[1] in ("m00", "m10"):
                 # element of a NESTED list, modified in place
                 tgt = ("_.m[%s][0]" if o else "m[%s][0]") % st[1][1]
+            elif st[1] == "l" and st[2] == "l2":
+                # the whole list variable takes the value of another list variable (a fresh list in the native twin)
+                self.emit(ind, "_.l = _.l2" if o else "l = l2")
+                return
             elif st[1] in ("q01", "q10", "q11"):
                 # element of a 2-D Array object, written in place: q01 as q[0][1], q10 through the tuple form q[1, 0]
                 i_, j_ = st[1][1], st[1][2]
@@ -175,23 +179,25 @@ def emit_program(stmts, obliv, explicit_ctx=True):
         e.emit(1, "_.x = X")
         e.emit(1, "_.y = Y")
         e.emit(1, "_.l = [X, Y]")
+        e.emit(1, "_.l2 = [Y, Y]")
         e.emit(1, "_.k = 5")            # variables that start as plain Python constants (int, float)
         e.emit(1, "_.w = 1.5")
         e.emit(1, "_.m = [[X], [Y]]")   # mutable containers below the top level
         e.emit(1, "_.a = Array([X, Y])")
         e.emit(1, "_.q = Array([Array([X, Y]), Array([Y, X])])")
         e.block(stmts, 1)
-        e.emit(1, "return _.x, _.y, _, _.l, _.k, _.w, _.m, _.a, _.q")
+        e.emit(1, "return _.x, _.y, _, _.l, _.k, _.w, _.m, _.a, _.q, _.l2")
     else:
         e.emit(0, "def prog(x, y, b, n, f=None):")
         e.emit(1, "l = [x, y]")
+        e.emit(1, "l2 = [y, y]")
         e.emit(1, "k = 5")
         e.emit(1, "w = 1.5")
         e.emit(1, "m = [[x], [y]]")
         e.emit(1, "a = [x, y]")
         e.emit(1, "q = [[x, y], [y, x]]")
         e.block(stmts, 1)
-        e.emit(1, "return x, y, l, k, w, m, a, q")
+        e.emit(1, "return x, y, l, k, w, m, a, q, l2")
     return "\n".join(e.lines) + "\n"
 
 
@@ -247,6 +253,14 @@ def programs(level):
             for c in ("i!=n", "x<y"):
                 for brk in (None, "y==3", "b", "x>=4"):
                     out.append([("while", c, mx, blk, brk)])
+    # --- a list variable assigned AS A WHOLE from another list variable inside branches / loops
+    WL = ("assign", "l", "l2")
+    for c in CONDS:
+        out.append([("if", [(c, [WL])], None)])
+        out.append([("if", [(c, [A[0]])], [WL])])
+        out.append([("if", [(c, [WL, ("assign", "l0", "l0+1")])], None)])
+    out.append([("for", 2, [WL], False)])
+    out.append([("while", "i!=n", 2, [WL, LA[0]], "b")])
     # --- for loops left by a break (secret conditions; public conditions on the loop index)
     for mx in (3, 4):
         for blk in blocks1(LA)[:4]:
